@@ -90,6 +90,10 @@ type Scenario struct {
 	Byz    []int // sorted
 	// Scripts are derived from Seed; Plain forces every Byzantine node to behave honestly (sanity runs)
 	Plain bool
+	// Recipe, when set, fixes the script of the first Byzantine node (a dealer) instead of drawing it:
+	// "victim=<j>;share=<beh>;vector=<beh>;answer=<beh>;inj=<kind>@<round>,..." (directed grid of the
+	// interactions around one honest victim); the other Byzantine nodes still draw theirs from Seed.
+	Recipe string `json:",omitempty"`
 }
 
 type item struct {
@@ -257,7 +261,7 @@ func pickBehaviour(r *rand.Rand, mangles []string, pPass int) Behaviour {
 
 var injectKinds = []string{
 	"complaint", "dup-complaint", "early-answer-valid", "early-answer-wrong", "answer-twice", "second-vector-same", "second-vector-diff",
-	"answer-burst", "late-share", "late-vector", "empty-bcast", "unknown-tag", "share-tag-on-bcast", "bcast-tag-on-private", "random-bcast", "random-private",
+	"answer-burst", "late-share", "late-share-wrong", "late-vector", "empty-bcast", "unknown-tag", "share-tag-on-bcast", "bcast-tag-on-private", "random-bcast", "random-private",
 }
 
 func (s *Sim) drawScript(b int) *Script {
@@ -269,6 +273,9 @@ func (s *Sim) drawScript(b int) *Script {
 			sc.Share[i] = Behaviour{Act: "pass"}
 		}
 		return sc
+	}
+	if s.Sc.Recipe != "" && len(s.Sc.Byz) > 0 && b == s.Sc.Byz[0] {
+		return s.recipeScript(s.Sc.Recipe)
 	}
 	// focused mode (half of the Byzantine dealers): everything honest except a dense mix of the
 	// behaviours that interact around ONE honest victim's share, complaint and answer
@@ -322,6 +329,17 @@ func (s *Sim) drawScript(b int) *Script {
 			if r.IntN(10) < 2 {
 				sc.Inject = append(sc.Inject, Injection{Round: 1 + r.IntN(3), Kind: injectKinds[r.IntN(len(injectKinds))], A: r.IntN(s.Sc.N), B: r.IntN(s.Sc.N)})
 			}
+			// a broadcast that disqualifies the dealer AFTER the earlier traffic of this script (same
+			// sender, so the order is kept): later handlers must not bring the dealer back
+			if r.IntN(10) < 3 {
+				k := []string{"empty-bcast", "unknown-tag", "share-tag-on-bcast", "second-vector-diff", "second-vector-same", "random-bcast"}[r.IntN(6)]
+				sc.Inject = append(sc.Inject, Injection{Round: 1 + r.IntN(3), Kind: k, A: j, B: r.IntN(s.Sc.N)})
+			}
+			// a share (right or wrong) that reaches the victim after the shares timeout, around its own
+			// complaint and the dealer's answer
+			if r.IntN(10) < 4 {
+				sc.Inject = append(sc.Inject, Injection{Round: 2 + r.IntN(2), Kind: []string{"late-share", "late-share-wrong"}[r.IntN(2)], A: j})
+			}
 			return sc
 		}
 	}
@@ -338,6 +356,51 @@ func (s *Sim) drawScript(b int) *Script {
 	sc.Answer = pickBehaviour(r, answerMangles, 50)
 	for k := r.IntN(4); k > 0; k-- {
 		sc.Inject = append(sc.Inject, Injection{Round: 1 + r.IntN(3), Kind: injectKinds[r.IntN(len(injectKinds))], A: r.IntN(s.Sc.N), B: r.IntN(s.Sc.N)})
+	}
+	return sc
+}
+
+func parseBehaviour(v string) Behaviour {
+	if i := strings.IndexByte(v, ':'); i >= 0 {
+		return Behaviour{Act: v[:i], Arg: v[i+1:]}
+	}
+	return Behaviour{Act: v}
+}
+
+// recipeScript builds a script from a Scenario.Recipe string.
+func (s *Sim) recipeScript(rec string) *Script {
+	sc := &Script{Share: map[int]Behaviour{}, Vector: Behaviour{Act: "pass"}, Complaint: Behaviour{Act: "pass"}, Answer: Behaviour{Act: "pass"}}
+	for i := 0; i < s.Sc.N; i++ {
+		sc.Share[i] = Behaviour{Act: "pass"}
+	}
+	victim := 0
+	for _, f := range strings.Split(rec, ";") {
+		k, v, ok := strings.Cut(f, "=")
+		if !ok {
+			continue
+		}
+		switch k {
+		case "victim":
+			fmt.Sscan(v, &victim)
+		case "share":
+			sc.Share[victim%s.Sc.N] = parseBehaviour(v)
+		case "vector":
+			sc.Vector = parseBehaviour(v)
+		case "answer":
+			sc.Answer = parseBehaviour(v)
+		case "complaint":
+			sc.Complaint = parseBehaviour(v)
+		case "inj":
+			for _, e := range strings.Split(v, ",") {
+				kind, rd, ok := strings.Cut(e, "@")
+				if !ok || kind == "none" {
+					continue
+				}
+				var round int
+				fmt.Sscan(rd, &round)
+				sc.Inject = append(sc.Inject, Injection{Round: round, Kind: kind, A: victim, B: victim})
+			}
+		}
 	}
 	return sc
 }
@@ -742,6 +805,14 @@ func (s *Sim) inject() {
 			case "late-share":
 				if sh := n.shares[target]; sh != nil && target != b {
 					s.pushPrivate(b, target, sh, max(2, s.round), true, lbl)
+				}
+			case "late-share-wrong":
+				if sh := n.shares[target]; sh != nil && target != b {
+					w := s.mangleShare(sh, "plus1")
+					if alt := n.altShares[target]; alt != nil && s.R.IntN(2) == 0 {
+						w = alt
+					}
+					s.pushPrivate(b, target, w, max(2, s.round), true, lbl)
 				}
 			case "late-vector":
 				if n.vector != nil {
